@@ -242,6 +242,8 @@ def match_case(draw):
         elif kind == 'num-1':
             arr = sorted(arr, reverse=True)
         x = draw(st.one_of(st.sampled_from(arr), base, st.sampled_from([min(arr) - 1, max(arr) + 1])))
+        if draw(st.integers(0, 3)) == 0 and float(x).is_integer() and abs(x) < 2 ** 53:
+            x = float(x) if isinstance(x, int) else int(x)       # 30 looked up among 10.0, 20.0, 30.0 (or 60/2 among integers): the same number
         return {'kind': kind, 'arr': arr, 'x': x, 'how': how, 'deftype': draw(st.booleans())}
     arr = draw(st.lists(WORDS, min_size=1, max_size=8))
     if kind == 'text0':
